@@ -636,11 +636,16 @@ func (b *Buffer) clearPositions() {
 
 	b.outInfo = b.outInfo[:0]
 
+	b.resizePositions()
+}
+
+// adjust `Pos` to have same length as `Info` (without zeroing its values)
+func (b *Buffer) resizePositions() {
 	L := len(b.Info)
 	if cap(b.Pos) >= L {
 		b.Pos = b.Pos[:L]
 	} else {
-		b.Pos = make([]GlyphPosition, L)
+		b.Pos = append(b.Pos[:cap(b.Pos)], make([]GlyphPosition, L-cap(b.Pos))...)
 	}
 }
 
@@ -720,6 +725,9 @@ func (b *Buffer) swapBuffers() {
 	b.haveOutput = false
 	b.Info, b.outInfo = b.outInfo, b.Info
 	b.idx = 0
+	// `Pos` may be indexed together with `Info` (reverseRange, in-place deletions)
+	// before clearPositions is called : keep the two slices the same length
+	b.resizePositions()
 }
 
 // returns an unique id
